@@ -874,7 +874,7 @@ func main() {
 		}
 	}
 	// development aid: C19_PLANS=<substring> runs only the plans whose name contains it (reported as not exhaustive)
-	if f := os.Getenv("C19_PLANS"); f != "" {
+	if f := strings.TrimPrefix(os.Getenv("C19_PLANS"), "="); f != "" {
 		var sel []plan
 		for _, p := range plans {
 			if strings.Contains(p.name, f) {
@@ -922,6 +922,9 @@ func main() {
 			case "concdone":
 				concExecs += r.N
 				concScen++
+				if os.Getenv("C19_DEBUG") != "" {
+					fmt.Fprintf(os.Stderr, "conc %s: execs=%d outcomes=%d %s\n", r.Key, r.N, r.Size, r.Detail)
+				}
 				c.Outcome(fmt.Sprintf("conc:%d-outcomes", r.Size))
 				if strings.HasPrefix(r.Detail, "false") {
 					c.NotExhaustive("concurrent scenario " + r.Key + " stopped: " + r.Detail)
@@ -937,18 +940,25 @@ func main() {
 			c.Fail("worker-death:"+runner.FatalFrame(d.Stderr), "crash", 0, map[string]any{"item": d.Item, "reason": d.Reason}, d.Stderr)
 		})
 	}
+	// development aid: C19_PLANS="=<substring>" also restricts the fixed parts (table, builtin, conc) to matching names
+	part := func(name string) bool {
+		f := os.Getenv("C19_PLANS")
+		return !strings.HasPrefix(f, "=") || strings.Contains(name, f[1:])
+	}
 	var tshards []pool.Shard
-	for i := 0; i < tableShards; i++ {
+	for i := 0; i < tableShards && part("table"); i++ {
 		tshards = append(tshards, pool.Shard{Kind: "table", Arg: shardArg{Seed: c.Seed, Slice: i, Of: tableShards}})
 	}
 	run(tshards, "")
-	if n := int64(len(tableCases())); tableN != n {
+	if n := int64(len(tableCases())); tableN != n && part("table") {
 		c.HarnessError("table: ran %d cases, the table has %d", tableN, n)
 	}
 	// built-in generic containers (std/loop List<T>, HashMap<K,V>): every method sequence up to bMax, then probes
 	bMax := 3
-	run(bShards(bMax, c.Seed), "")
-	if want := bCount(bMax); builtinN != want {
+	if part("builtin") {
+		run(bShards(bMax, c.Seed), "")
+	}
+	if want := bCount(bMax); builtinN != want && part("builtin") {
 		c.HarnessError("builtin: ran %d cases, the space has %d", builtinN, want)
 	}
 	c.Set("builtin_container_cases", map[string]any{"cases": builtinN, "max_ops": bMax, "list_ops": listOps, "hashmap_ops": mapOps})
@@ -956,6 +966,9 @@ func main() {
 	// concurrent clause: coroutines instantiating Box<T> with different arguments under the scheduler
 	var cshards []pool.Shard
 	for _, sc := range concScenarios(c.Quick()) {
+		if !part("conc") {
+			break
+		}
 		cshards = append(cshards, pool.Shard{Kind: "conc", Arg: sc})
 	}
 	run(cshards, "")
